@@ -97,6 +97,28 @@ class Driver(object):
                 pass
             rt.idle_hooks.remove(pre.step)
             t_pre = rt.now
+        elif m.get('pre') == 'openeddrop':
+            # the SAME connection object was opened successfully before, then the peer dropped the
+            # socket; nobody has looked at the connection since (it still says OPEN); the attempt
+            # observed below is the application reconnecting
+            from harness.broker import Broker
+            pre = Broker()
+            real_attach = rt.on_connect
+            state = {'n': 0}
+
+            def attach(sock):
+                state['n'] += 1
+                (pre.attach if state['n'] == 1 else real_attach)(sock)
+            rt.on_connect = attach
+            rt.idle_hooks.insert(0, pre.step)
+            try:
+                conn.open()
+                pre.drop('eof')
+                rt.advance(0.05)
+            except AMQPConnectionError:
+                pass
+            rt.idle_hooks.remove(pre.step)
+            t_pre = rt.now
         else:
             t_pre = 0.0
         result = 'OpenOk'
@@ -165,7 +187,8 @@ class Driver(object):
             metas.append(self.base(cmax=c, fmax=f,
                                    cfg_hb=rnd.choice([0, 1, 60, 600])))
         creds = ['guest', 'user', 'p@ss:w/rd', 'pässwörd', '雪', 'a b', '',
-                 'x' * 40, 'tab\there', '\U0001F600']
+                 'x' * 40, 'tab\there', '\U0001F600',
+                 ' lead', 'trail ', 'nl\n', '\ttab', ' both ', '   ', '\r\nx\r\n']
         for step in range(3):
             for r in ([('close', step, c) for c in (320, 403, 530, 200, 541)]
                       + [('closedrop', step, c) for c in (403, 530)]
@@ -178,6 +201,17 @@ class Driver(object):
             mm = self.base(cmax=rnd.choice(CMAX), fmax=rnd.choice(FMAX))
             mm['pre'] = 'dropmid'
             metas.append(mm)
+        for k in range(8 if tier == 'quick' else 40):
+            # reconnecting an object whose socket the peer dropped, against any kind of broker
+            mm = self.base(cmax=rnd.choice(CMAX), fmax=rnd.choice(FMAX))
+            if k % 2:
+                step = rnd.randrange(3)
+                mm['refusal'] = rnd.choice([('close', step, rnd.choice((320, 403, 530))),
+                                            ('closedrop', step, 403), ('drop', step)])
+            mm['pre'] = 'openeddrop'
+            metas.append(mm)
+        for u in creds[10:]:
+            metas.append(self.base(user=u, pw=rnd.choice(creds[10:])))
         n = 60 if tier == 'quick' else 600
         for _ in range(n):
             toks = rnd.choices(TOKENS, k=rnd.randrange(0, 5))
